@@ -28,8 +28,8 @@ MUTANTS = [
          old="    rarr[0:3, 3] = -1 * tdot\n", new="    rarr[0:3, 3] = tdot\n"),
     dict(id="adjoint_blocks", file=MR, props=["C01", "C02"], desc="Adjoint puts [p]R in the upper-right block",
          old="    rarr[3:6, 0:3] = vs3 @ R\n", new="    rarr[0:3, 3:6] = vs3 @ R\n"),
-    dict(id="log3_halfturn_branch", file=MR, props=["C01"], desc="MatrixLog3 half-turn: second branch reads R[2][0] instead of R[2][1]",
-         old="                  * np.array([R[0][1], 1 + R[1][1], R[2][1]]))", new="                  * np.array([R[0][1], 1 + R[1][1], R[2][0]]))"),
+    dict(id="log3_halfturn_branch", file=MR, props=["C01"], desc="MatrixLog3 half-turn: second branch uses 1 - R[1][1]",
+         old="                  * np.array([R[0][1], 1 + R[1][1], R[2][1]]))", new="                  * np.array([R[0][1], 1 - R[1][1], R[2][1]]))"),
     dict(id="exp6_translation_coeff", file=MR, props=["C01", "C02"], desc="MatrixExp6: translation term scaled by 0.999999",
          old="(theta - np.sin(theta))* np.dot(omgmat, omgmat)", new="(theta - np.sin(theta)) * 0.99999 * np.dot(omgmat, omgmat)"),
     dict(id="log6_vterm", file=MR, props=["C01", "C02"], desc="MatrixLog6: omgmat/2 term has the wrong sign",
